@@ -75,6 +75,9 @@ AdmtCases == {[kind |-> "admt", g |-> g, psi |-> psi, p |-> f, a |-> a, ix |-> i
                 psi \in FluxMaps, f \in {<<3, 0, 0, 0, 0, 0>>, <<4, -1, 2, 0, 0, 0>>, <<2, -1, 0, 1, 1, -1>>, <<0, 1, 1, 0, 0, 2>>},
                 a \in {1, 2, 10}, ix \in 1..(IF Deep THEN 4 ELSE 2), iy \in 1..(IF Deep THEN 4 ELSE 2)}
 
+\* the derivative operators are homogeneous in the length unit: on the same grid measured in units of 10^e the first-derivative
+\* rows are divided by 10^e and the second-derivative rows by 10^2e (compared by the harness for these exponents)
+UnitExps == <<0, -3, 3>>
 VARIABLE c
 Init == c \in DerivCases \cup AdmtCases
 Next == UNCHANGED c
